@@ -158,7 +158,7 @@ def finish(acc, tier, seed):
         reasons.append("open() spy never fired: encoding monitor not attached")
     if acc.counters.get("nonascii_contents", 0) < 50:
         reasons.append("too few non-ASCII contents")
-    need = 7000 if tier == "quick" else 150000
+    need = 7000 if tier == "quick" else 100000
     if acc.evals < need:
         reasons.append(f"only {acc.evals} (content, environment) pairs (< {need})")
     return reasons
